@@ -26,6 +26,7 @@
 //            - when it is not a declaration
 //   # lines are statistics.
 #include <ipr/impl>
+#include <deque>
 #include <set>
 #include <ipr/traversal>
 #include <cxxabi.h>
@@ -636,6 +637,22 @@ static void build_and_observe(unsigned variant)
    obs("make_while", lex.make_while());
    obs("make_for", lex.make_for());
    obs("make_for_in", lex.make_for_in());
+
+   // -- statements and declarations that carry ANNOTATIONS (the `notes` a front end attaches; no factory fills them in): what a node has
+   //    attached to it is not part of what `accept` visits
+   {
+      static std::deque<impl::Annotation> annotations;
+      auto annotate = [&](auto* node, int k) {
+         for (int i = 0; i < k; ++i) {
+            annotations.emplace_back(lex.get_string(u8"hot"), *lex.make_literal(T, u8"1"));
+            node->notes.push_back(&annotations.back());
+         }
+      };
+      auto* brk = lex.make_break(); annotate(brk, 1); obs("make_break (one annotation)", brk);
+      auto* ret = lex.make_return(*lex.make_literal(T, u8"2")); annotate(ret, 3); obs("make_return (three annotations)", ret);
+      auto* av = gscope.make_var(lex.get_identifier(u8"annotated"), T); annotate(av, 2); obs("make_var (two annotations)", av);
+      auto* ablk = lex.make_block(global); annotate(ablk, 1); obs("make_block (one annotation)", ablk);
+   }
 
    // -- depth: a visitor that, from inside its hook, visits the operand -- over an expression nested `depth` levels deep.  Every level's
    //    hook is entered exactly once and view<K> answers at every depth (a traversal keeps as many visits in progress as the graph is deep).
